@@ -45,16 +45,18 @@ theorem writer_takeover_matches : ∀ client cnct snct : Bool,
 
 /-- Before anything is armed or written, `writeFrame` takes the frame lock and refuses every frame other than
 Ping / Pong once a Close frame was sent. -/
-theorem writeFrame_guard : ∀ closeSent client flate fin lockErr : Bool, ∀ op : Fin 16,
-    run (envWriteFrame closeSent client flate fin lockErr op.val false) c_Conn_writeFrame
+theorem writeFrame_guard : ∀ closeSent client flate fin lockErr staleRsv1 staleFin : Bool, ∀ op : Fin 16,
+    run (envWriteFrame closeSent client flate fin lockErr staleRsv1 staleFin op.val false) c_Conn_writeFrame
       = writeFrameGuardExpected closeSent lockErr op.val := by
   decide +kernel
 
-/-- On the path where nothing fails, the frame is emitted by exactly these steps in this order, and a Close
-frame sets the latch *before* its header is written, in both roles. -/
-theorem writeFrame_emission : ∀ client flate fin : Bool, ∀ op : Fin 16,
-    run (envWriteFrame false client flate fin false op.val true) c_Conn_writeFrame
-      = writeFrameEmissionExpected fin op.val := by
+/-- On the path where nothing fails, the frame is emitted by exactly these steps in this order; a Close frame
+sets the latch *before* its header is written, in both roles; and the header goes out with FIN as asked, RSV1
+exactly on the first frame of a compressed message and MASK exactly for a client — whatever the previous frame
+left in the reused header (`staleRsv1`, `staleFin`). -/
+theorem writeFrame_emission : ∀ client flate fin staleRsv1 staleFin : Bool, ∀ op : Fin 16,
+    run (envWriteFrame false client flate fin false staleRsv1 staleFin op.val true) c_Conn_writeFrame
+      = writeFrameEmissionExpected client flate fin op.val := by
   decide +kernel
 
 /-! ### message sequencing (RFC 6455 §5.4) in `reader` and `msgReader.read` -/
